@@ -159,6 +159,12 @@ fn gen_node(cx: &mut Ctx, ent: usize, depth: usize, root_alias: bool, paging_ok:
         };
         cx.lines.push(format!("qf n={} name={} sel={} f={} op={} v={}{}", n, name, sel as u8, j, op, v.show(), if var { " var=1" } else { "" }));
     }
+    // `field = null` / `field != null` on a reference field (selected under its own name, under an alias, or not at all)
+    for (j, f) in e.iter().enumerate() {
+        if (f.ty == 'R' || f.ty == 'A') && cx.g.chance(1, 6) {
+            cx.lines.push(format!("qf n={} name=f{} sel=0 f={} op={} v=N ref=1", n, j, j, if cx.g.chance(1, 2) { "eq" } else { "ne" }));
+        }
+    }
     // ---- order, limits, cursors
     let mut orders: Vec<(String, usize, bool)> = vec![];
     for _ in 0..cx.g.weighted(&[3, 4, 2, 1]) {
@@ -244,6 +250,12 @@ fn gen_aggregate(cx: &mut Ctx, ent: usize) {
         let j = scalars[cx.g.below(scalars.len())];
         let v = data_val(cx, ent, j, e[j].ty);
         cx.lines.push(format!("qf n=0 name=f{} sel=0 f={} op={} v={}", j, j, ["ne", "le", "ge", "lt"][cx.g.below(4)], v.show()));
+    }
+    // a filter on an aggregate alias (a condition on the groups)
+    if cx.g.chance(1, 2) {
+        let a = aggs[cx.g.below(aggs.len())].clone();
+        let v = if a == "cnt" { Val::Int(cx.g.below(4) as i64) } else { Val::Int(INTS[cx.g.below(INTS.len())]) };
+        cx.lines.push(format!("qf n=0 name={} sel=1 f=0 op={} v={}{}", a, ["gt", "ge", "le", "ne", "eq"][cx.g.below(5)], v.show(), if cx.g.chance(1, 3) { " var=1" } else { "" }));
     }
     for (name, j) in &keys {
         if cx.g.chance(2, 3) {
